@@ -4,7 +4,7 @@ from vplib import core
 from vplib.core import Job, VERIF
 SRC = os.path.join(VERIF, "harness/c10_clamp_backup.cpp")
 WHAT = "backup"
-RULE = ("backup<probe_fn<T^N, O^M>> for N, M in 1..4 independently, (T,O) in {(int,float),(size_t,float),(float,float),(double,double),(long,double),(unsigned,double)}, every box in {(0,0),(0,2),(1,3)}^N x the N-fold product of the "
+RULE = ("backup<probe_fn<T^N, O^M>> for N, M in 1..4 independently, (T,O) in {(int,float),(size_t,float),(float,float),(double,double),(long,double),(unsigned,double),(double,float),(float,int)}, every box in {(0,0),(0,2),(1,3)}^N x the N-fold product of the "
         "per-axis alphabet (as C10: extremes, values equal and adjacent to each bound, infinities, signed zeros); oracle: outside the closed box => result == default and the probe's query counter did not move; "
         "inside => exactly one query, at exactly that coordinate, result == the probe's value; a non-trivial case is one (N, M, types, box)")
 
